@@ -39,6 +39,9 @@
 (*                         as running on its worker after it has finished: a    *)
 (*                         late cancel of it hits whatever that worker runs now *)
 (*                         (seeded/C13)                                         *)
+(*  "count_before_create" submit_co takes its slot in the running counter      *)
+(*                         before the coroutine is created and does not give it *)
+(*                         back when the creation fails (seeded/C15)            *)
 (* KeepAlive = TRUE models a positive keep-alive time: whether an idle worker's *)
 (* time has passed is then chosen freely at every look.                         *)
 EXTENDS Naturals, Integers, Sequences, FiniteSets, TLC, Json
@@ -150,6 +153,13 @@ Abandon(t) ==
   /\ cancelTasks' = IF Dev("drop_undoes_cancel") THEN cancelTasks \ {t} ELSE cancelTasks
   /\ UNCHANGED <<pstate, tq, tst, tw, nsusp, cancelCo, runningTasks, wst, wtask, rq, ctr, spc, cur, stopping, waits, pending,
                  wpc, notified, accepted, viol>>
+
+\* submit_co with a stack that cannot be mapped: the creation fails, nothing else may change
+BadSpawn ==
+  /\ Api /\ spc = "idle" /\ Log([a |-> "bad_co"])
+  /\ ctr' = IF Dev("count_before_create") /\ ctr < Max THEN ctr + 1 ELSE ctr
+  /\ UNCHANGED <<pstate, tq, tst, tw, nsusp, tres, cancelTasks, cancelCo, runningTasks, wst, wtask, rq, spc, cur, stopping, waits,
+                 pending, wpc, notified, accepted, viol>>
 
 StopBegin ==
   /\ Api /\ spc = "idle" /\ stopping = "no" /\ pstate = "Running"
@@ -347,7 +357,7 @@ W4(t) == /\ Go /\ wpc[t] = "W4" /\ NoLog /\ Take(t, "timeout")
 
 Next ==
   \/ \E t \in T : Submit(t) \/ Cancel(t) \/ Abandon(t) \/ WaitStart(t) \/ W1(t) \/ W2(t) \/ W2b(t) \/ W3wake(t) \/ W3timeout(t) \/ W4(t)
-  \/ StopBegin \/ StopEnd(TRUE) \/ StopEnd(FALSE)
+  \/ StopBegin \/ StopEnd(TRUE) \/ StopEnd(FALSE) \/ BadSpawn
   \/ PassBegin \/ PickWorker \/ WorkerPop \/ TaskSuspend \/ TaskDelay \/ TaskFinish \/ Notify
   \/ \E w \in W : TimerFire(w)
 Spec == Init /\ [][Next]_vars
